@@ -2,7 +2,7 @@
    _find_cross_origin_intergenic, find_all_orfs (chunk extraction incl. windows starting before the
    origin, both strands with reverse complement), create_feature_from_location (label, translation
    with the first residue forced to M), Record.get_aa_translation_from_location,
-   Record.get_cds_features_within_location(part, with_overlapping=True), Feature.__lt__, and
+   _overlapping_cds_features (every CDS of the record tested with Feature.overlaps_with), Feature.__lt__, and
    Biopython's location.extract / reverse_complement / translate (standard table, unambiguous DNA);
    followed by the decidable specification evaluated on the implementation's outputs.
    DNA is a list of character codes; the codon tables come from Gen/Tables_gen.v. *)
@@ -208,50 +208,14 @@ Definition feature_lt (a b : loc) : bool :=
   let sb := comparator_start b in
   (sa <? sb) || ((sa =? sb) && (llen a <? llen b)).
 
-(* ---------- Record.get_cds_features_within_location(part, with_overlapping=True) ---------- *)
-Fixpoint bisect_left_go {A} (fuel : nat) (lt_x : A -> bool) (l : list A) (lo hi : nat) : nat :=
-  match fuel with
-  | O => lo
-  | S f =>
-    if (lo <? hi)%nat then
-      let mid := ((lo + hi) / 2)%nat in
-      match nth_error l mid with
-      | Some a => if lt_x a then bisect_left_go f lt_x l (S mid) hi else bisect_left_go f lt_x l lo mid
-      | None => lo
-      end
-    else lo
-  end.
-Fixpoint back_while (test : loc -> bool) (l : list loc) (index : nat) : nat :=
-  match index with
-  | O => O
-  | S i => match nth_error l i with
-           | Some f => if test f then back_while test l i else index
-           | None => index
-           end
-  end.
-Fixpoint within_go (location : loc) (fs : list loc) : list loc :=
-  match fs with
-  | [] => []
-  | f :: rest =>
-    if contains location f then f :: within_go location rest
-    else if overlap f location then f :: within_go location rest
-    else match rest with
-         | nxt :: _ => if contains f nxt then within_go location rest else []
-         | [] => []
-         end
-  end.
-(* cds: the record's CDS features in the record's own order *)
-Definition cds_within (cds : list loc) (p : part) : list loc :=
-  match cds with
-  | [] => []
-  | _ =>
-    let p := if ps p <? 0 then mkPart 0 (Z.max 1 (pe p)) S_None else p in
-    let location := [p] in
-    let index := bisect_left_go (S (length cds)) (fun f => feature_lt f location) cds 0 (length cds) in
-    let index := back_while (fun f => lstart f =? ps p) cds index in
-    let index := back_while (fun f => overlap f location) cds index in
-    within_go location (skipn index cds)
-  end.
+(* ---------- all_orfs._overlapping_cds_features(record, location) ---------- *)
+(* `[cds for cds in record.get_cds_features() if cds.overlaps_with(location)]`: EVERY CDS feature of the record is
+   tested for overlap with the area part (Feature.overlaps_with = locations_overlap = Loc.overlap), the record's own
+   order is kept.  (Until the repair of FC15a area_misses_enclosing_gene this was the positional look-up
+   Record.get_cds_features_within_location(part, with_overlapping=True): bisect_left, two walk-back loops, a forward
+   loop with a `break` rule - which left out a gene reaching into the part when a later gene ended before it.)
+   cds: the record's CDS features in the record's own order *)
+Definition cds_within (cds : list loc) (p : part) : list loc := filter (fun c => overlap c [p]) cds.
 
 (* ---------- _find_cross_origin_intergenic ---------- *)
 Definition gene_span (l : loc) : Z * Z := (lstart l, lend l).
@@ -387,9 +351,6 @@ Fixpoint starts_sortedb (genes : list (Z * Z)) : bool :=
   | g :: r => forallb (fun h => fst g <=? fst h) r && starts_sortedb r
   end.
 
-(* the look-up helper returns every gene that overlaps the part (false: class FC15a area_misses_enclosing_gene) *)
-Definition helper_complete (cds : list loc) (p : part) : bool :=
-  forallb (fun c => negb (overlap c [p]) || existsb (loc_eqb c) (cds_within cds p)) cds.
 (* no gene reaches into both parts of an origin-spanning area (false: class FC15b origin_gene_padding_window) *)
 Definition no_gene_in_both (cds : list loc) (p1 p2 : part) : bool :=
   forallb (fun c => negb (overlap c [p1] && overlap c [p2])) cds.
@@ -404,20 +365,20 @@ Definition gaps_wf (n : Z) (cds : list loc) (area : option loc) (min_length max_
   | Some [p1; p2] => (pe p1 =? n) && (ps p2 =? 0) && (0 <? pe p2) && (pe p2 <=? ps p1) && (ps p1 <? n)
   | Some _ => false
   end.
-(* the guard of C15_gaps: well-formed and outside the two recorded classes *)
+(* the guard of C15_gaps: well-formed and outside the recorded class FC15b.  (The former second conjunct - the look-up
+   helper misses no gene overlapping an area part, class FC15a area_misses_enclosing_gene - is gone with the repair:
+   cds_within tests every gene, Proofs.cds_within_complete.) *)
 Definition gaps_guard (n : Z) (cds : list loc) (area : option loc) (min_length max_overlap : Z) : bool :=
   gaps_wf n cds area min_length max_overlap &&
   match area with
-  | Some [p] => helper_complete cds p
-  | Some [p1; p2] => helper_complete cds p1 && helper_complete cds p2 && no_gene_in_both cds p1 p2
+  | Some [p1; p2] => no_gene_in_both cds p1 p2
   | _ => true
   end.
-(* which recorded class an input outside the guard belongs to: 1 = FC15a, 2 = FC15b, 0 = neither *)
+(* which recorded class an input outside the guard belongs to: 2 = FC15b, 0 = none (1 was FC15a, repaired: never
+   returned any more) *)
 Definition gaps_class (cds : list loc) (area : option loc) : Z :=
   match area with
-  | Some [p] => if helper_complete cds p then 0 else 1
-  | Some [p1; p2] => if helper_complete cds p1 && helper_complete cds p2
-                     then (if no_gene_in_both cds p1 p2 then 0 else 2) else 1
+  | Some [p1; p2] => if no_gene_in_both cds p1 p2 then 0 else 2
   | _ => 0
   end.
 
